@@ -62,6 +62,11 @@ def read_client_conf():
                     if os.path.exists(p):
                         loc = p
                         break
+                else:
+                    # None of the default locations exists yet: use the first one rather than a missing
+                    # (or empty, i.e. current-directory) location
+                    if paths:
+                        loc = os.path.expandvars(paths[0])
         return ':'.join((scheme, loc))
 
     path = get_path()
